@@ -7,6 +7,12 @@
   (`headerStep_late`), and `parseHeader_unified'` / `headerLoop_unified` no longer exclude a first body line that starts
   with `--- ` / `+++ `.  `parseHeader_unified` / `headerStep_first` keep their old signatures (wrappers).
 
+  D86: the test also passes for an EMPTY line if the range read from the line before has a count above 0 on both sides
+  (`emptyStart`; `firstBodyLine` = `bodyStart ∨ emptyStart`, `firstBodyLine_iff` is the test as the model spells it,
+  `headerStep_firstBody` the step lemma for either case).  `headerLoop_unified_e` / `parseHeader_unified_e` take
+  `firstLineOk h first.content` (either case); `headerLoop_unified` / `parseHeader_unified'` are the `bodyStart` instances
+  with their old signatures.  `headerStep_empty_skip`: an empty line anywhere else is skipped.
+
   At the end: the `Prereq: ` / `Index: ` lines (`headerStep_prereq`: strip count 0), the operation `parseHeader` returns
   (`opOf`, `parseHeader_operation`, `parseHeader_git_operation`: nothing is inferred from the ranges alone in a git
   section) and the header of a whole git section (`headerLoop_git`, `parseHeader_git_section`, `gitInferredOp`).
@@ -121,6 +127,15 @@ theorem noKeyword_of_bodyStart {l : Bytes} (h : bodyStart l) (hm : ¬ startsWith
     startsWith_false_of_head l _ _ _ str_git ?_⟩ <;>
   · rcases hh with e | e | e <;> rw [e] <;> decide
 
+/-- an EMPTY first line of a hunk body (an unchanged empty line as `diff -u --suppress-blank-empty` writes it): taken
+    as such only if the range read from the line before has room for an unchanged line — a count above 0 on both sides (D86) -/
+def emptyStart (st : HState) (l : Bytes) : Prop :=
+  l = [] ∧ (0 : Int) < st.hunk.old.count ∧ (0 : Int) < st.hunk.new.count
+
+/-- what the header scan asks of the first line of the first hunk, `h` being the range read from the line before it -/
+def firstLineOk (h : Hunk) (l : Bytes) : Prop :=
+  bodyStart l ∨ (l = [] ∧ (0 : Int) < h.old.count ∧ (0 : Int) < h.new.count)
+
 /-! ### one step of the header scan -/
 
 /-- the state at the start of an iteration: one more line, "looks like" marker reset -/
@@ -129,7 +144,27 @@ abbrev entered (st : HState) : HState := { st with lines := st.lines + 1, thisLo
 /-- the test `headerStep` makes FIRST: the line before looked like a unified range, this line starts like a line of a
     hunk body, and the format is unknown or unified -/
 def firstBodyLine (st : HState) (l : Bytes) : Prop :=
-  (st.patch.format = .unknown ∨ st.patch.format = .unified) ∧ st.thisLooks = .unified ∧ bodyStart l
+  (st.patch.format = .unknown ∨ st.patch.format = .unified) ∧ st.thisLooks = .unified ∧ (bodyStart l ∨ emptyStart st l)
+
+/-- the test as `headerStep` spells it -/
+theorem firstBodyLine_iff (st : HState) (l : Bytes) :
+    firstBodyLine st l ↔
+      ((st.patch.format = .unknown ∨ st.patch.format = .unified) ∧ st.thisLooks = .unified ∧
+        (startsWith l "+" ∨ startsWith l "-" ∨ startsWith l " " ∨
+          (l = [] ∧ (0 : Int) < st.hunk.old.count ∧ (0 : Int) < st.hunk.new.count))) := by
+  unfold firstBodyLine bodyStart emptyStart
+  simp only [or_assoc]
+
+/-- the step lemma for any line that passes the test -/
+theorem headerStep_firstBody (st : HState) (l : Bytes) (strip : Int) (h : firstBodyLine st l) :
+    headerStep st l strip =
+      .ok ({ entered st with
+              patch := { st.patch with oldPath := st.patch.newPath, newPath := st.patch.oldPath,
+                                       oldTime := st.patch.newTime, newTime := st.patch.oldTime, format := .unified },
+              foundFirstHunk := true }, false) := by
+  rw [firstBodyLine_iff] at h
+  rw [Cost.headerStep_eq]
+  simp only [if_pos h]
 
 /-- **the line after a unified range line that starts like a body line** — whatever else it looks like (`--- x`, `+++ y`,
     in or outside a git section): the scan stops, the format is unified, the two names / time stamps are swapped back and
@@ -142,9 +177,7 @@ theorem headerStep_first' (st : HState) (l : Bytes) (strip : Int)
               patch := { st.patch with oldPath := st.patch.newPath, newPath := st.patch.oldPath,
                                        oldTime := st.patch.newTime, newTime := st.patch.oldTime, format := .unified },
               foundFirstHunk := true }, false) := by
-  unfold bodyStart at hb
-  rw [Cost.headerStep_eq]
-  simp only [hf, hl, hb, and_self, if_true]
+  exact headerStep_firstBody st l strip ⟨hf, hl, Or.inl hb⟩
 
 /-- when that test fails `headerStep` goes on with the keyword tests -/
 theorem headerStep_late (st : HState) (l : Bytes) (strip : Int) (hn : ¬ firstBodyLine st l) :
@@ -179,7 +212,7 @@ theorem headerStep_late (st : HState) (l : Bytes) (strip : Int) (hn : ¬ firstBo
            ({ st with patch := { p with oldPath := name, newPath := name, format := .unified }, isGit := true,
                       ltfh := st.lines + 1 }, true)
        | none => Cost.hdrTail last st l strip) := by
-  unfold firstBodyLine bodyStart at hn
+  rw [firstBodyLine_iff] at hn
   rw [Cost.headerStep_eq]
   simp only [if_neg hn]
   rfl
@@ -187,13 +220,31 @@ theorem headerStep_late (st : HState) (l : Bytes) (strip : Int) (hn : ¬ firstBo
 theorem not_firstBodyLine_of_looks {st : HState} {l : Bytes} (h : st.thisLooks ≠ .unified) : ¬ firstBodyLine st l :=
   fun hh => h hh.2.1
 
-theorem not_firstBodyLine_of_head {st : HState} {l : Bytes}
+/-- (hypothesis `h0` added with the model change D86: an empty line may be the first line of a hunk body) -/
+theorem not_firstBodyLine_of_head {st : HState} {l : Bytes} (h0 : l.head? ≠ none)
     (h32 : l.head? ≠ some 32) (h43 : l.head? ≠ some 43) (h45 : l.head? ≠ some 45) : ¬ firstBodyLine st l := by
   intro hh
-  rcases bodyStart_head hh.2.2 with e | e | e
-  · exact h32 e
-  · exact h43 e
-  · exact h45 e
+  rcases hh.2.2 with hb | he
+  · rcases bodyStart_head hb with e | e | e
+    · exact h32 e
+    · exact h43 e
+    · exact h45 e
+  · exact h0 (by rw [he.1]; rfl)
+
+/-- a line on which a unified range is read is not empty -/
+theorem ne_nil_of_parseUnifiedRange {hk h' : Hunk} {l : Bytes} (hp : parseUnifiedRange hk l = (true, h')) : l ≠ [] := by
+  intro e
+  subst e
+  rw [parseUnifiedRange_none hk [] (startsWith_false_of_head _ _ _ _ Unified.str_atat_minus (by simp))] at hp
+  simp at hp
+
+/-- a line on which a unified range is read is the first body line only if it starts like one -/
+theorem not_firstBodyLine_of_range {st : HState} {l : Bytes} {hk h' : Hunk} (hp : parseUnifiedRange hk l = (true, h'))
+    (hb : ¬ (st.thisLooks = .unified ∧ bodyStart l)) : ¬ firstBodyLine st l := by
+  intro hh
+  rcases hh.2.2 with h | h
+  · exact hb ⟨hh.2.1, h⟩
+  · exact ne_nil_of_parseUnifiedRange hp h.1
 
 /-- a `--- name` line (not directly after a unified range line: there it is the removal of a line `-- name`) is stored as
     the NEW name (the quirk of `parse_patch_header`; swapped back on detection) -/
@@ -250,7 +301,7 @@ theorem headerStep_range (st : HState) (l : Bytes) (strip : Int) (f : NoKeyword 
     (hp : parseUnifiedRange st.hunk l = (true, h')) :
     headerStep st l strip =
       .ok ({ entered st with hunk := h', thisLooks := .unified, ltfh := st.lines + 1 }, true) := by
-  rw [headerStep_tail st l strip f (fun hh => hb hh.2)]
+  rw [headerStep_tail st l strip f (not_firstBodyLine_of_range hp hb)]
   unfold Cost.hdrTail Cost.hdrUnified
   simp only [hg, hf, hp, if_true, if_false, Bool.false_eq_true]
 
@@ -303,10 +354,11 @@ def rangeOk (h : Hunk) : Prop :=
   0 ≤ h.old.start ∧ h.old.start ≤ i64Max / 4 ∧ 0 ≤ h.old.count ∧ h.old.count ≤ i64Max / 4 ∧
   0 ≤ h.new.start ∧ h.new.start ≤ i64Max / 4 ∧ 0 ≤ h.new.count ∧ h.new.count ≤ i64Max / 4
 
-theorem headerLoop_unified (strip : Int) (st : HState) (old new oldt newt : Bytes) (h : Hunk) (first : Line)
+/-- the first line of the first hunk may also be EMPTY, if both counts of the range are above 0 (`firstLineOk`, D86) -/
+theorem headerLoop_unified_e (strip : Int) (st : HState) (old new oldt newt : Bytes) (h : Hunk) (first : Line)
     (more : List Line) (fuel : Nat)
     (hold : plainName old) (hnew : plainName new) (hot : oldt ≠ []) (hnt : newt ≠ []) (hr : rangeOk h)
-    (hb : bodyStart first.content)
+    (hb : firstLineOk h first.content)
     (hterm : first.newline ≠ .none)
     (hg : st.isGit = false) (hf : st.patch.format = .unknown ∨ st.patch.format = .unified)
     (hlooks : st.thisLooks ≠ .unified)
@@ -352,8 +404,28 @@ theorem headerLoop_unified (strip : Int) (st : HState) (old new oldt newt : Byte
   simp only [if_true]
   -- line 4
   rw [headerLoop_step strip _ _ _ first _ rfl rfl rfl hterm false
-      (headerStep_first' _ _ strip hf rfl hb)]
+      (by exact headerStep_firstBody _ _ strip ⟨hf, rfl, hb⟩)]
   simp only [Bool.false_eq_true, if_false, stripped]
+
+theorem headerLoop_unified (strip : Int) (st : HState) (old new oldt newt : Bytes) (h : Hunk) (first : Line)
+    (more : List Line) (fuel : Nat)
+    (hold : plainName old) (hnew : plainName new) (hot : oldt ≠ []) (hnt : newt ≠ []) (hr : rangeOk h)
+    (hb : bodyStart first.content)
+    (hterm : first.newline ≠ .none)
+    (hg : st.isGit = false) (hf : st.patch.format = .unknown ∨ st.patch.format = .unified)
+    (hlooks : st.thisLooks ≠ .unified)
+    (heof : st.par.s.eof = false) (hbad : st.par.s.bad = false)
+    (hrest : st.par.s.rest = ⟨str "--- " ++ old ++ [TAB] ++ oldt, .lf⟩ :: ⟨str "+++ " ++ new ++ [TAB] ++ newt, .lf⟩ ::
+                               ⟨Unified.rangeText h, .lf⟩ :: first :: more) :
+    headerLoop strip (fuel + 4) st =
+      .ok { st with par := { s := { st.par.s with rest := more }, lineNo := st.par.lineNo + 4 },
+                    patch := { st.patch with format := .unified, oldPath := stripped old strip, newPath := stripped new strip,
+                                             oldTime := oldt, newTime := newt },
+                    lines := st.lines + 4, thisLooks := .unknown,
+                    hunk := { st.hunk with old := h.old, new := h.new }, ltfh := st.lines + 3,
+                    foundFirstHunk := true } :=
+  headerLoop_unified_e strip st old new oldt newt h first more fuel hold hnew hot hnt hr (Or.inl hb) hterm hg hf hlooks
+    heof hbad hrest
 
 /-! ### `parseHeader` on (filler +) the header of a unified diff -/
 
@@ -381,11 +453,11 @@ def inferredOp (h : Hunk) : Operation :=
 
 /-- **the header of a unified diff (after inert filler) is read back**, whatever the first line of the first hunk looks
     like beyond its first byte — `--- x` (the removal of `-- x`) and `+++ y` included -/
-theorem parseHeader_unified' (strip : Int) (par : Parser) (pt : Patch) (filler : List Line)
+theorem parseHeader_unified_e (strip : Int) (par : Parser) (pt : Patch) (filler : List Line)
     (old new oldt newt : Bytes) (h : Hunk) (first : Line) (more : List Line)
     (hin : ∀ l ∈ filler, inertLine l.content = true) (hft : ∀ l ∈ filler, l.newline ≠ .none)
     (hold : plainName old) (hnew : plainName new) (hot : oldt ≠ []) (hnt : newt ≠ []) (hr : rangeOk h)
-    (hb : bodyStart first.content)
+    (hb : firstLineOk h first.content)
     (hterm : first.newline ≠ .none)
     (hf : pt.format = .unknown ∨ pt.format = .unified) (hop : pt.operation = .change)
     (heof : par.s.eof = false) (hbad : par.s.bad = false)
@@ -402,7 +474,7 @@ theorem parseHeader_unified' (strip : Int) (par : Parser) (pt : Patch) (filler :
                                ⟨Unified.rangeText h, .lf⟩ :: first :: more : List Line) = T at hrest
   have hskip := headerLoop_skip strip filler { par := par, patch := pt } (by simpa [inertFor] using hin) hft
     (Or.inr calm_unknown) heof hbad T hrest (more.length + 2 + 4)
-  have hloop := headerLoop_unified strip
+  have hloop := headerLoop_unified_e strip
     (advance { par := par, patch := pt } T filler.length (if filler = [] then ({ par := par, patch := pt } : HState).thisLooks else .unknown))
     old new oldt newt h first more (more.length + 2) hold hnew hot hnt hr hb hterm rfl hf
     (by simp only [advance]; split <;> simp) heof hbad hT.symm
@@ -430,6 +502,27 @@ theorem parseHeader_unified' (strip : Int) (par : Parser) (pt : Patch) (filler :
   split
   · rfl
   · split <;> rfl
+
+/-- `parseHeader_unified_e` for a first body line that starts with ' ', '+' or '-' (the statement before the model change D86) -/
+theorem parseHeader_unified' (strip : Int) (par : Parser) (pt : Patch) (filler : List Line)
+    (old new oldt newt : Bytes) (h : Hunk) (first : Line) (more : List Line)
+    (hin : ∀ l ∈ filler, inertLine l.content = true) (hft : ∀ l ∈ filler, l.newline ≠ .none)
+    (hold : plainName old) (hnew : plainName new) (hot : oldt ≠ []) (hnt : newt ≠ []) (hr : rangeOk h)
+    (hb : bodyStart first.content)
+    (hterm : first.newline ≠ .none)
+    (hf : pt.format = .unknown ∨ pt.format = .unified) (hop : pt.operation = .change)
+    (heof : par.s.eof = false) (hbad : par.s.bad = false)
+    (hrest : par.s.rest = filler ++ ⟨str "--- " ++ old ++ [TAB] ++ oldt, .lf⟩ :: ⟨str "+++ " ++ new ++ [TAB] ++ newt, .lf⟩ ::
+                               ⟨Unified.rangeText h, .lf⟩ :: first :: more) :
+    parseHeader par pt strip =
+      .ok (true,
+           { pt with format := .unified, operation := inferredOp h, oldPath := stripped old strip,
+                     newPath := stripped new strip, oldTime := oldt, newTime := newt },
+           { linesTillFirstHunk := filler.length + 3, format := .unified },
+           { s := { rest := ⟨Unified.rangeText h, .lf⟩ :: first :: more, eof := false, bad := false },
+             lineNo := par.lineNo + (filler.length + 2) }) :=
+  parseHeader_unified_e strip par pt filler old new oldt newt h first more hin hft hold hnew hot hnt hr (Or.inl hb) hterm hf hop
+    heof hbad hrest
 
 /-- `parseHeader_unified'` with the two hypotheses on the first body line that were needed while a `--- ` / `+++ ` line
     after the range line was taken for a file header (kept, with the old signature, for callers that pass them) -/
@@ -473,7 +566,7 @@ theorem headerStep_git_first (st : HState) (r : Bytes) (strip : Int) (hg : st.is
     consumeStr_none_of_startsWith (startsWith_false_of_head _ _ _ _ str_index (by rw [hd]; decide))
   have h5 : consumeStr (str "Prereq: ") (str "diff --git " ++ r) = none :=
     consumeStr_none_of_startsWith (startsWith_false_of_head _ _ _ _ str_prereq (by rw [hd]; decide))
-  rw [headerStep_late _ _ _ (not_firstBodyLine_of_head (by rw [hd]; decide) (by rw [hd]; decide) (by rw [hd]; decide))]
+  rw [headerStep_late _ _ _ (not_firstBodyLine_of_head (by rw [hd]; decide) (by rw [hd]; decide) (by rw [hd]; decide) (by rw [hd]; decide))]
   simp only [h1, h2, h3, h4, h5, ite_self, Unified.consumeStr_append, hg, Bool.false_eq_true, if_false]
 
 /-- (statement changed with the model, D85: the last line of a text that ends in a bare CR is handed out without that CR) -/
@@ -551,7 +644,7 @@ theorem headerStep_prereq (st : HState) (r : Bytes) (strip : Int) :
     consumeStr_none_of_startsWith (startsWith_false_of_head _ _ _ _ str_new4 (by rw [hd]; decide))
   have h4 : consumeStr (str "Index: ") (str "Prereq: " ++ r) = none :=
     consumeStr_none_of_startsWith (startsWith_false_of_head _ _ _ _ str_index (by rw [hd]; decide))
-  rw [headerStep_late _ _ _ (not_firstBodyLine_of_head (by rw [hd]; decide) (by rw [hd]; decide) (by rw [hd]; decide))]
+  rw [headerStep_late _ _ _ (not_firstBodyLine_of_head (by rw [hd]; decide) (by rw [hd]; decide) (by rw [hd]; decide) (by rw [hd]; decide))]
   simp only [h1, h2, h3, h4, ite_self, Unified.consumeStr_append]
 
 /-- an `Index: ` line, for comparison: the name on it IS stripped by `-p` -/
@@ -565,7 +658,7 @@ theorem headerStep_index (st : HState) (r : Bytes) (strip : Int) :
     consumeStr_none_of_startsWith (startsWith_false_of_head _ _ _ _ str_plus4 (by rw [hd]; decide))
   have h3 : consumeStr (str "--- ") (str "Index: " ++ r) = none :=
     consumeStr_none_of_startsWith (startsWith_false_of_head _ _ _ _ str_new4 (by rw [hd]; decide))
-  rw [headerStep_late _ _ _ (not_firstBodyLine_of_head (by rw [hd]; decide) (by rw [hd]; decide) (by rw [hd]; decide))]
+  rw [headerStep_late _ _ _ (not_firstBodyLine_of_head (by rw [hd]; decide) (by rw [hd]; decide) (by rw [hd]; decide) (by rw [hd]; decide))]
   simp only [h1, h2, h3, ite_self, Unified.consumeStr_append]
 
 /-! ### the operation the header scan returns -/
@@ -662,6 +755,46 @@ theorem gitExt_of_head (l : Bytes) (p : Patch) (strip : Int)
     k _ _ _ Names.str_copy_from h99, k _ _ _ e1 h100, k _ _ _ e2 h110, k _ _ _ e3 h111, k _ _ _ e4 h110, k _ _ _ e5 h105,
     k _ _ _ e6 h71]
 
+/-! ### the empty line -/
+
+private theorem str_stars_15 : str "***************" = [42, 42, 42, 42, 42, 42, 42, 42, 42, 42, 42, 42, 42, 42, 42] := by
+  unfold str String.toUTF8; rw [Cpp.byteArray_toList_eq_data]; rfl
+private theorem str_gt_sp : str "> " = [62, 32] := by
+  unfold str String.toUTF8; rw [Cpp.byteArray_toList_eq_data]; rfl
+private theorem str_lt_sp : str "< " = [60, 32] := by
+  unfold str String.toUTF8; rw [Cpp.byteArray_toList_eq_data]; rfl
+
+theorem inertFacts_nil : InertFacts [] :=
+  ⟨startsWith_false_of_head [] _ _ _ str_old4 (by simp), startsWith_false_of_head [] _ _ _ str_plus4 (by simp),
+   startsWith_false_of_head [] _ _ _ str_new4 (by simp), startsWith_false_of_head [] _ _ _ str_index (by simp),
+   startsWith_false_of_head [] _ _ _ str_prereq (by simp), startsWith_false_of_head [] _ _ _ str_git (by simp),
+   startsWith_false_of_head [] _ _ _ str_stars_15 (by simp), startsWith_false_of_head [] _ _ _ Unified.str_atat_minus (by simp),
+   rfl⟩
+
+theorem not_bodyStart_nil : ¬ bodyStart [] := by
+  intro h
+  have := bodyStart_head h
+  simp at this
+
+/-- **an empty line** is skipped by the header scan, in or outside a git section, whatever the line before looked like —
+    unless that line looked like a unified range with room for an unchanged line on both sides (then it is the first line
+    of the first hunk: `headerStep_firstBody`, D86) -/
+theorem headerStep_empty_skip (st : HState) (strip : Int)
+    (hc : ¬ (st.thisLooks = .unified ∧ (0 : Int) < st.hunk.old.count ∧ (0 : Int) < st.hunk.new.count)) :
+    headerStep st [] strip = .ok (skipped st, true) := by
+  refine headerStep_skip st [] strip inertFacts_nil ?_ ?_ ?_
+  · rw [gitExt_of_head [] st.patch strip (by simp) (by simp) (by simp) (by simp) (by simp) (by simp) (by simp)]
+    simp
+  · rintro ⟨hl, h⟩
+    have h' : bodyStart [] ∨ ([] = ([] : Bytes) ∧ (0 : Int) < st.hunk.old.count ∧ (0 : Int) < st.hunk.new.count) := by
+      unfold bodyStart; simpa only [or_assoc] using h
+    rcases h' with hb | ⟨_, ho, hn⟩
+    · exact not_bodyStart_nil hb
+    · exact hc ⟨hl, ho, hn⟩
+  · rintro ⟨_, h | h⟩
+    · rw [startsWith_false_of_head [] _ _ _ str_gt_sp (by simp)] at h; simp at h
+    · rw [startsWith_false_of_head [] _ _ _ str_lt_sp (by simp)] at h; simp at h
+
 /-- a unified range line inside a git section: remembered as "looks unified", like outside one (`headerStep_range`) -/
 theorem headerStep_range_git (st : HState) (l : Bytes) (strip : Int) (f : NoKeyword l) (hg : st.isGit = true)
     (hx : parseGitExtendedInfo l st.patch strip = .ok (false, st.patch))
@@ -670,7 +803,7 @@ theorem headerStep_range_git (st : HState) (l : Bytes) (strip : Int) (f : NoKeyw
     (hp : parseUnifiedRange st.hunk l = (true, h')) :
     headerStep st l strip =
       .ok ({ entered st with hunk := h', thisLooks := .unified, ltfh := st.lines + 1 }, true) := by
-  rw [headerStep_tail st l strip f (fun hh => hb hh.2)]
+  rw [headerStep_tail st l strip f (not_firstBodyLine_of_range hp hb)]
   unfold Cost.hdrTail Cost.hdrUnified
   simp only [hg, hx, hf, hp, if_true]
 
